@@ -317,4 +317,20 @@ def run(run, tier, load):
             nwid += check_widening(run, facts, cfg, mod, name, bits, signed, rep)
             nops += check_ops(run, facts, cfg, mod, name, bits, signed, rep)
         run.floor('op', 'Add/Sub/Mul/Neg impls (%s)' % cfg, nops, 27)
+        # inventory: a NEW arithmetic operator of these types (`+=`, `Sum` ...; the statement's "addition" is also `x += y`)
+        # produces values of the type too and has no rule here -- fail closed.  (The operators the verified tree already
+        # has beyond Add/Sub/Mul/Neg -- Div, Rem, shifts, bit operations -- are held to the reference by the completeness pass.)
+        import equiv
+        ref_impls = {tuple(x) for x in ((equiv.reference(cfg).get('#meta') or {}).get('impls') or [])}
+        tps = {tpath(mod, name): name for mod, name, bits, signed in TYPES}
+        evaluated = {fn for r, fn, _, _ in run.instances}
+        for i in facts.impls:
+            tr = i.get('trait') or ''
+            adt = facts.ty(i['self_ty']).get('path')
+            if ref_impls and adt in tps and (tr, adt) not in ref_impls and tr.startswith(('core::ops::arith::', 'core::ops::bit::', 'core::iter::traits::accum::')):
+                for it in i.get('items', []):
+                    fp = it.get('path')
+                    if fp and facts.body(fp) is not None and fp not in evaluated:
+                        run.unproven('op.inventory', fp, cfg, 'an arithmetic operator of %s that no rule of this check evaluates: its result is a %s too and must stay in [MIN, MAX] '
+                                     '(wrapping without, panicking with debug assertions)' % (tps[adt], tps[adt]), where=facts.body(fp).get('span'))
         run.floor('from-widening', 'widening From impls (%s)' % cfg, nwid, 35)
